@@ -11,7 +11,37 @@ TECH_TRACE = "TLA+ specification model-checked by TLC + trace validation of reco
 
 CODEC_MC = dict(module="MC_Codec", quick="MC_Codec.cfg", thorough="MC_Codec_T.cfg", workers=8)
 
+WRITER_MC = dict(module="MC_Writer", quick="MC_Writer.cfg", thorough="MC_Writer_T.cfg", workers=8)
+WRITER_STAGE = dict(cmd="writer", spec="Trace_Writer", histfile=True,
+                    quick=dict(chunks=8, maxlen=3, deeplen=4, deeptypes=1, random=6, modeltypes=3),
+                    thorough=dict(chunks=16, maxlen=5, deeplen=6, deeptypes=3, random=60))
+
 PROPS = {
+    "C09": dict(
+        level="model_checking",
+        level_text="TLC explores every history over {write a, write b, write x, finalize} up to the bound on the writer "
+                   "specification and checks the committed-file invariants; the same histories (TLC's own list plus the "
+                   "harness's enumeration with other endings and long random ones) are performed on the real ShapeWriter for all "
+                   "13 types and each recorded execution is validated against the specification, with the properties' relations "
+                   "evaluated on the real bytes at every finalize and drop",
+        level_note="trusted: TLC, the instrumented destinations; bounded history length; in-memory destinations",
+        technique=TECH_TRACE,
+        mc=[WRITER_MC], stages=[WRITER_STAGE],
+        rule="a run = one history of calls on a fresh real writer (type x index-destination x history x ending in drop / "
+             "finalize+drop / write_shapes); distinct = distinct (type, withShx, history) triples",
+    ),
+    "C10": dict(
+        level="model_checking",
+        level_text="as C09, with the rejected-write action of the specification: the error names (file type, offered type), the "
+                   "call touches no destination, the final bytes equal those of the accepted shapes alone; all 156 ordered type pairs",
+        level_note="trusted: TLC, the instrumented destinations; the row side of the complete Writer is covered by C08",
+        technique=TECH_TRACE,
+        mc=[WRITER_MC],
+        stages=[dict(cmd="writer", spec="Trace_Writer", histfile=True,
+                     quick=dict(chunks=8, maxlen=2, random=4, allx=1, modeltypes=3),
+                     thorough=dict(chunks=16, maxlen=5, random=40, allx=1))],
+        rule="a run = one history with a shape of another type offered at every position; all ordered pairs (file type, offered type)",
+    ),
     "C01": dict(
         level="model_checking",
         level_text="TLC checks in a small scope that the specification's reader model inverts its reference encoder up to the "
